@@ -148,6 +148,11 @@ func (ex *Exec) visitInstr(fr *frame, instr ssa.Instruction) bool {
 	case *ssa.Panic:
 		panic(targetPanic{fr.get(instr.X)})
 	case *ssa.Store:
+		if ref, ok := fr.get(instr.Addr).(*symRef); ok {
+			i := ex.concretize(ref.idx, len(ref.cells), "store through a symbolic index")
+			store(ref.cells[i], fr.get(instr.Val))
+			break
+		}
 		p := fr.get(instr.Addr).(*value)
 		if p == nil {
 			rtPanic("invalid memory address or nil pointer dereference")
@@ -204,6 +209,14 @@ func (ex *Exec) visitInstr(fr *frame, instr ssa.Instruction) bool {
 	case *ssa.Next:
 		fr.env[instr] = fr.get(instr.Iter).(iter).next(fr)
 	case *ssa.FieldAddr:
+		if ref, ok := fr.get(instr.X).(*symRef); ok {
+			nr := &symRef{idx: ref.idx, cells: make([]*value, len(ref.cells))}
+			for i, c := range ref.cells {
+				nr.cells[i] = &(*c).(structure)[instr.Field]
+			}
+			fr.env[instr] = nr
+			break
+		}
 		p := fr.get(instr.X).(*value)
 		if p == nil {
 			rtPanic("invalid memory address or nil pointer dereference")
@@ -215,6 +228,10 @@ func (ex *Exec) visitInstr(fr *frame, instr ssa.Instruction) bool {
 		x := fr.get(instr.X)
 		switch x := x.(type) {
 		case *sliceV:
+			if ref := fr.symIndexRef(instr, fr.get(instr.Index), instr.Index.Type(), sliceLen(x), func(i int) *value { return x.at(i) }); ref != nil {
+				fr.env[instr] = ref
+				break
+			}
 			i := fr.checkIndex(fr.get(instr.Index), instr.Index.Type(), sliceLen(x))
 			fr.env[instr] = x.at(i)
 		case *value:
@@ -222,6 +239,10 @@ func (ex *Exec) visitInstr(fr *frame, instr ssa.Instruction) bool {
 				rtPanic("invalid memory address or nil pointer dereference")
 			}
 			a := (*x).(array)
+			if ref := fr.symIndexRef(instr, fr.get(instr.Index), instr.Index.Type(), len(a), func(i int) *value { return &a[i] }); ref != nil {
+				fr.env[instr] = ref
+				break
+			}
 			i := fr.checkIndex(fr.get(instr.Index), instr.Index.Type(), len(a))
 			fr.env[instr] = &a[i]
 		default:
@@ -884,4 +905,177 @@ func (ex *Exec) pkgFuncOf(fr *frame) string {
 		}
 	}
 	return "?"
+}
+
+// symRef is the address of an element selected by a symbolic index (in range): loads through it become an
+// if-then-else over the candidate cells instead of one path per index value.
+type symRef struct {
+	idx   *Term // 64-bit, known to be < len(cells)
+	cells []*value
+}
+
+// symIndexRef returns a symRef for a symbolic in-range index when every use of the address is a load (possibly
+// through field selections); otherwise nil (the caller forks over the index values).
+func (fr *frame) symIndexRef(instr *ssa.IndexAddr, idx value, it types.Type, n int, cell func(i int) *value) *symRef {
+	if fr.ex.eng.NoSymIndexLoads || n == 0 || n > 512 {
+		return nil
+	}
+	t, ok := idx.(*Term)
+	if !ok {
+		return nil
+	}
+	if !loadsOnly(instr) {
+		return nil
+	}
+	_, sym := fr.indexVal(t, it)
+	tt := fr.ex.tt
+	in := tt.Cmp(OpULt, sym, tt.BV(uint64(n), 64))
+	if !fr.ex.branch(in, "index in range") {
+		panic(targetPanic{v: runtimeError(fmt.Sprintf("index out of range [%s] with length %d", "?", n))})
+	}
+	ref := &symRef{idx: sym, cells: make([]*value, n)}
+	for i := 0; i < n; i++ {
+		ref.cells[i] = cell(i)
+	}
+	return ref
+}
+
+func loadsOnly(v ssa.Value) bool {
+	refs := v.Referrers()
+	if refs == nil || len(*refs) == 0 {
+		return false
+	}
+	for _, r := range *refs {
+		switch r := r.(type) {
+		case *ssa.UnOp:
+			if r.Op != token.MUL {
+				return false
+			}
+		case *ssa.FieldAddr:
+			if !loadsOnly(r) {
+				return false
+			}
+		case *ssa.DebugRef:
+		default:
+			return false
+		}
+	}
+	return true
+}
+
+// loadSymRef builds the if-then-else over the candidate cells; aggregates are merged field by field.
+func (ex *Exec) loadSymRef(ref *symRef) value {
+	vals := make([]value, len(ref.cells))
+	for i, c := range ref.cells {
+		vals[i] = *c
+	}
+	v, ok := ex.mergeByIndex(ref.idx, vals)
+	if !ok {
+		i := ex.concretize(ref.idx, len(ref.cells), "load of a non-mergeable element through a symbolic index")
+		return load(ref.cells[i])
+	}
+	return v
+}
+
+// mergeByIndex returns ite(idx==0, vals[0], ite(idx==1, ...)) with runs of identical values compressed into ranges.
+func (ex *Exec) mergeByIndex(idx *Term, vals []value) (value, bool) {
+	tt := ex.tt
+	switch first := vals[0].(type) {
+	case structure:
+		out := make(structure, len(first))
+		for f := range first {
+			col := make([]value, len(vals))
+			for i, v := range vals {
+				s, ok := v.(structure)
+				if !ok || len(s) != len(first) {
+					return nil, false
+				}
+				col[i] = s[f]
+			}
+			m, ok := ex.mergeByIndex(idx, col)
+			if !ok {
+				return nil, false
+			}
+			out[f] = m
+		}
+		return out, true
+	case uint64, bool, float64, *Term:
+		// all must be scalars of one sort
+		w := -99
+		terms := make([]*Term, len(vals))
+		for i, v := range vals {
+			var t *Term
+			switch v := v.(type) {
+			case *Term:
+				t = v
+			case bool:
+				t = tt.Bool(v)
+			case float64:
+				t = tt.FP(v)
+			case uint64:
+				t = nil // width resolved below
+			default:
+				return nil, false
+			}
+			terms[i] = t
+			if t != nil {
+				if w == -99 {
+					w = t.W
+				} else if w != t.W {
+					return nil, false
+				}
+			}
+		}
+		allConcreteSame := true
+		for i, v := range vals {
+			if terms[i] == nil {
+				if w == -99 {
+					continue
+				}
+				if w <= 0 {
+					return nil, false
+				}
+				terms[i] = tt.BV(v.(uint64), w)
+			}
+			_ = i
+		}
+		if w == -99 {
+			// all concrete integers: width unknown here; use 64 bits and let the consumer resize? Not safe: fall back
+			// unless all equal
+			for _, v := range vals {
+				if v != vals[0] {
+					allConcreteSame = false
+				}
+			}
+			if allConcreteSame {
+				return vals[0], true
+			}
+			return nil, false
+		}
+		// build from the end, compressing runs
+		res := terms[len(terms)-1]
+		for i := len(terms) - 2; i >= 0; i-- {
+			if terms[i] == res || (res.Op == OpIte && res.Args[1] == terms[i]) {
+				continue // same value as the run that follows: its range test already covers this index
+			}
+			// idx <= i selects the run ending at i
+			j := i
+			for j > 0 && terms[j-1] == terms[i] {
+				j--
+			}
+			res = tt.Ite(tt.Cmp(OpULe, idx, tt.BV(uint64(i), 64)), terms[i], res)
+			_ = j
+		}
+		if res.IsConst() {
+			switch {
+			case res.W == SBool:
+				return res.C != 0, true
+			case res.W == SFP:
+				return res.F, true
+			}
+			return res.C, true
+		}
+		return res, true
+	}
+	return nil, false
 }
